@@ -199,6 +199,9 @@ def shared_typevar_checks(out):
         class Swap(G2[U, T], t.Generic[T, U]):
             pass
 
+        class Triple(G2[int, V], t.Generic[W]):
+            c: W
+
         class Crate(pane.PaneBase, t.Generic[T]):
             item: T
             anything: Box = None
@@ -214,6 +217,8 @@ def shared_typevar_checks(out):
             ('H2(G2[int, V], Generic[W, V])[str, float]', lambda: H2[str, float], {'x': int, 'y': float, 'w': str}, {'x': 1, 'y': 2.5, 'w': 's'}, [{'x': 1, 'y': 's', 'w': 's'}, {'x': 1, 'y': 2.5, 'w': 2.5}]),
             ('H3(G2[int, V], Generic[V])[str]', lambda: H3[str], {'x': int, 'y': str}, {'x': 1, 'y': 's'}, [{'x': 1, 'y': 2}]),
             ('Swap(G2[U, T], Generic[T, U])[int, str]', lambda: Swap[int, str], {'x': str, 'y': int}, {'x': 's', 'y': 1}, [{'x': 1, 'y': 1}, {'x': 's', 'y': 's'}]),
+            ('Triple(G2[int, V], Generic[W])[str, float]: forwarded parameters first', lambda: Triple[str, float], {'x': int, 'y': str, 'c': float},
+             {'x': 1, 'y': 's', 'c': 2.5}, [{'x': 1, 'y': 2.5, 'c': 2.5}, {'x': 1, 'y': 's', 'c': 's'}]),
             ('Crate[str] with a bare Box field', lambda: Crate[str], {'item': str, 'anything': Box, 'boxes': t.List[Box]},
              {'item': 's', 'anything': {'held': 5}, 'boxes': [{'held': 1.5}, {'held': 's'}]}, [{'item': 1}]),
             ('Sub(G[int]) with a bare Box field', lambda: Sub, {'x': int, 'extra': Box}, {'x': 1, 'extra': {'held': 's'}}, [{'x': 's'}]),
